@@ -67,6 +67,8 @@ def cases(tier, seed):
         out.append({"id": "routing-" + name, "kind": "routing", "fv": fv, "seed": seed, "sim": True})
     for fv, dev in e1.family_members(1 if tier == "quick" else 2)[0]:
         out.append({"id": "routing-" + e1.fv_id(fv), "kind": "routing", "fv": fv, "seed": seed, "sim": False})
+    # one Python callable registered under several function names (each name has its own parameter values)
+    out.append({"id": "routing-shared-callable", "kind": "routing", "fv": dict(family.BASE), "seed": seed, "sim": True, "shared_callable": True})
     return out
 
 
@@ -159,6 +161,8 @@ def _run_routing(case):
     b = e1.Built(case["fv"], case["seed"])
     if not b.valid:
         return outcome(status="skipped", skip_reason="invalid-combo", nontrivial=False)
+    if case.get("shared_callable"):
+        b = _shared_callable_model(case["seed"])
     base = b.params("perturbed", 0.9)  # pairwise distinct leaves
     leaves = [(f, p) for f in b.P for p in b.P[f]]
     viols, states, traces, dig = [], 0, 0, []
@@ -227,6 +231,39 @@ def _run_routing(case):
     if not traces and not viols:
         return outcome(status="skipped", skip_reason="unsupported", nontrivial=False)
     return outcome(status="violation" if viols else "ok", violations=viols[:3], states=states, transitions=traces * b.fv["T"], traces=traces, digest=digest(dig), nontrivial=len(valuations) > 5, counters={"valuations": len(valuations), "unsupported_valuations": n_unsup})
+
+
+class _Shared:
+    """B0-like model in which ONE callable is registered as `inc`, `bonus` and `next_g`-helper `drift`."""
+
+    valid = True
+
+    def __init__(self, seed):
+        self.seed = seed
+        src = (
+            "def scaled(d, factor):\n    return d * factor + 0.1 * factor\n\n"
+            "def utility(s, w, d, c, inc, bonus, a):\n    return jnp.log(c) + a * 0.31 * d * (s + 1) + 0.0137 * w * (1 + 0.5 * s) + 0.05 * inc - 0.02 * bonus * s\n\n"
+            "def c_constraint(c, w):\n    return c <= w + 0.2371\n\n"
+            "def sd_filter(s, d):\n    return jnp.logical_or(d == 0, s < 2)\n\n"
+            "def next_s(s, d):\n    return jnp.clip(s + d, 0, 2)\n\n"
+            "def next_w(w, c, d, drift, factor):\n    return (w - c) + 1.0 + 0.25 * d + 0.1 * drift + 0.01 * factor\n"
+        )
+        self.text = family.PRELUDE + src + (
+            "\n\nMODEL = Model(n_periods=3,\n    functions={'utility': utility, 'inc': scaled, 'bonus': scaled, 'drift': scaled, "
+            "'c_constraint': c_constraint, 'sd_filter': sd_filter, 'next_s': next_s, 'next_w': next_w},\n"
+            "    choices={'d': D(2), 'c': Lin(0.5, 3.0, 6)},\n    states={'s': D(3), 'w': Lin(1, 5, 5)})\n"
+        )
+        self.model = family.exec_model(self.text)
+        self.P = {"utility": {"a": 1.3}, "inc": {"factor": 1.9}, "bonus": {"factor": 0.7}, "drift": {"factor": -0.4}, "c_constraint": {}, "sd_filter": {}, "next_s": {}, "next_w": {"factor": 2.5}}
+        self.shocks = {}
+        self.fv = dict(family.BASE)
+
+    def params(self, variant="default", beta=0.9):
+        return e1.gen_params(self.P, self.shocks, self.seed, variant, beta)
+
+
+def _shared_callable_model(seed):
+    return _Shared(seed)
 
 
 def run_case(case):
